@@ -80,9 +80,11 @@ pub fn check_pair(run: &mut Run, a: MCell, b: MCell, depth: i32) {
     }
     // the default request (None = one level up), also for an accepted non-canonical spelling of the smaller cell: the word still
     // sorts before b (the stray bit sits below the marker), so what is reported as its parent must not sort after b's parent
+    let mut spelt_a = ia;
     if (ia >> 7) % 4 == 0 && a.res >= 1 {
         let mut arng = Rng::stream(ia, "C20.alias", ib);
         let wa = stray_alias(&mut arng, a).filter(|w| *w < ib).unwrap_or(ia);
+        spelt_a = wa;
         run.count(if wa != ia { "default_parent.alias_spelling_of_a" } else { "default_parent.canonical" });
         if let (Ok(pa), Ok(pb)) = (parent(wa, None), parent(ib, None)) {
             let want = parent_at(a, a.res - 1).map(encode);
@@ -94,7 +96,13 @@ pub fn check_pair(run: &mut Run, a: MCell, b: MCell, depth: i32) {
     }
     let t = (a.res + depth).min(MAX_RES);
     if t > a.res {
-        match (children(ia, Some(t)), children(ib, Some(t))) {
+        // (descendants of a are asked for under the spelling chosen above when the library accepts it for this call)
+        let ka = match children(spelt_a, Some(t)) {
+            Ok(k) => Ok(k),
+            Err(_) if spelt_a != ia => children(ia, Some(t)),
+            Err(e) => Err(e),
+        };
+        match (ka, children(ib, Some(t))) {
             (Ok(ka), Ok(kb)) => {
                 let max_a = ka.iter().max().unwrap();
                 let min_b = kb.iter().min().unwrap();
@@ -211,7 +219,9 @@ fn run(ctx: &Ctx) -> Run {
     let mut out = parallel(threads, |w, run| {
         let mut rng = ctx.rng("C20", w);
         // (1) exhaustive adjacent positions for small resolutions (incl. across quintant and face borders)
-        for res in 2..=exhaustive_to {
+        // (resolution 1 included: the quintants themselves are the top of "from the quintant level down", and the only cells with
+        // a stray position above their marker)
+        for res in 1..=exhaustive_to {
             let n = num_cells(res) as i64;
             let first = MCell::new(res, 0, 0, 0);
             let mut k = w as i64;
